@@ -116,6 +116,9 @@ def run_op(pf, op, shared=None):
     if k == "slice_only":            # derive a handle, do not read through it
         sub = pf[slice(op.get("i"), op.get("j"), op.get("step"))]
         return [len(sub.row_groups), [int(rg.num_rows) for rg in sub.row_groups]]
+    if k == "slice_stats":           # metadata-only answers through a derived handle
+        sub = pf[slice(op.get("i"), op.get("j"), op.get("step"))]
+        return [len(sub.row_groups), canon(sub.statistics), sub.count(), canon(sub.info)]
     if k == "iter":
         return [df for df in pf.iter_row_groups(**_kw(op))]
     if k == "head":
@@ -937,3 +940,138 @@ def storm_run(pf, op_a, op_b, shared=None, every=1, phase=0, timeout=40.0, max_c
         stop[0] = True
         kill_threads([ta, tb])
     return a_results, res_b[0], calls[0], isdead
+
+
+# ---------------------------------------------------------------------------------------------
+# solo results from a pristine process
+# ---------------------------------------------------------------------------------------------
+
+class SoloServer:
+    """A process forked from this one BEFORE it has executed any operation (pristine module- and class-level
+    state of the package); for every request it forks a throw-away child that runs the operation alone on a
+    handle of its own.  So "the result the operation gives alone" cannot be contaminated by caches that
+    earlier operations of the same process left at module or class level."""
+
+    def __init__(self):
+        import pickle as pk
+        self.pk = pk
+        r1, w1 = os.pipe()          # requests
+        r2, w2 = os.pipe()          # answers
+        pid = os.fork()
+        if pid == 0:
+            try:
+                os.close(w1)
+                os.close(r2)
+                # drop every other descriptor inherited from the worker (its pipe to the parent above all: the parent
+                # must see end-of-file when the worker dies)
+                for name in os.listdir("/proc/self/fd"):
+                    fd = int(name)
+                    if fd > 2 and fd not in (r1, w2):
+                        try:
+                            os.close(fd)
+                        except OSError:
+                            pass
+                self._loop(r1, w2)
+            finally:
+                os._exit(0)
+        os.close(r1)
+        os.close(w2)
+        self.pid, self.w, self.r = pid, w1, r2
+
+    @staticmethod
+    def _send(fd, obj):
+        import pickle as pk
+        import struct
+        b = pk.dumps(obj)
+        os.write(fd, struct.pack("<I", len(b)) + b)
+
+    @staticmethod
+    def _recv(fd, timeout):
+        import pickle as pk
+        import select
+        import struct
+        import time
+        end = time.time() + timeout
+        buf = b""
+        need = None
+        while True:
+            left = end - time.time()
+            if left <= 0:
+                return None, "timeout"
+            rl, _, _ = select.select([fd], [], [], left)
+            if not rl:
+                return None, "timeout"
+            chunk = os.read(fd, 65536)
+            if not chunk:
+                return None, "eof"
+            buf += chunk
+            if need is None and len(buf) >= 4:
+                need = struct.unpack("<I", buf[:4])[0]
+            if need is not None and len(buf) >= 4 + need:
+                return pk.loads(buf[4:4 + need]), None
+
+    def _loop(self, rfd, wfd):
+        import signal
+        while True:
+            msg, err = self._recv(rfd, 10 ** 7)
+            if err:
+                return
+            path, op, shared, timeout = msg
+            r, w = os.pipe()
+            pid = os.fork()
+            if pid == 0:
+                try:
+                    os.close(r)
+                    self._send(w, solo_result(path, op, shared))
+                finally:
+                    os._exit(0)
+            os.close(w)
+            res, err = self._recv(r, timeout)
+            os.close(r)
+            if err == "timeout":
+                try:
+                    os.kill(pid, signal.SIGKILL)
+                except OSError:
+                    pass
+                res = ["EXC", "TimeoutError", "alone: operation did not return within %ds" % timeout]
+            elif err:
+                res = ["EXC", "Crash", "alone: the process running the operation died"]
+            try:
+                os.waitpid(pid, 0)
+            except OSError:
+                pass
+            self._send(wfd, res)
+
+    def ask(self, path, op, shared=None, timeout=60):
+        self._send(self.w, (path, op, shared, timeout))
+        res, err = self._recv(self.r, timeout + 30)
+        if err:
+            return ["EXC", "SoloServer", err]
+        return res
+
+    def close(self):
+        for fd in (self.w, self.r):
+            try:
+                os.close(fd)
+            except OSError:
+                pass
+        try:
+            os.waitpid(self.pid, 0)
+        except OSError:
+            pass
+
+
+SOLO_SERVER = [None]
+
+
+def start_solo_server():
+    """call in a process that has not executed any operation yet"""
+    if SOLO_SERVER[0] is None:
+        SOLO_SERVER[0] = SoloServer()
+    return SOLO_SERVER[0]
+
+
+def solo_pristine(path, op, timeout=60):
+    if SOLO_SERVER[0] is None:
+        return solo_result(path, op)
+    return SOLO_SERVER[0].ask(path, op, None, timeout)
